@@ -261,9 +261,12 @@ func (f *FuncCtx) call(st *State, call *ast.CallExpr) []Term {
 	key := fn.FullName()
 	// process aborts: os.Exit, log.Fatal*, and the Fatal* methods of every logger (logrus, zap and zerolog exit the process; the
 	// repository's own logger interface does so as soon as a real logger is configured). No deferred recover() intercepts them, so
-	// such a call must be UNREACHABLE in a function under contract (C20 "does not abort the process", C14 containment).
+	// such a call must be UNREACHABLE in a function under contract - in the runs of the properties that SAY so (C20 "does not abort
+	// the process", C17 loader, C14 containment). It is deliberately not an obligation elsewhere: NewKnowledgeBaseInstance logs with
+	// Fatalf when a clone is not identical to its blueprint, which is reachable only if Clone is broken (C09 decides that) - demanding
+	// its unreachability there raised an alarm on the unchanged tree with no failing input, i.e. a false alarm (corrected).
 	if isAbortCall(fn) {
-		f.oblige(st, "false", f.site("noabort"), "noabort", "no call that ends the process is reachable ("+key+")", nil, f.pos(call))
+		f.oblige(st, "false", f.site("noabort"), "noabort", "no call that ends the process is reachable ("+key+")", []string{"C14", "C17", "C20"}, f.pos(call))
 		st.assume("false")
 	}
 	// loggers: evaluate arguments for their panic edges, no effect
